@@ -100,6 +100,9 @@ ObsOK(ev) ==
     \* the file is up to date whenever the library is in data mode, and after close
     /\ ("disk" \in DOMAIN o /\ mode' \in {"data", "closed"} /\ exists') => DiskObsOK(o)
     /\ ("exists" \in DOMAIN o) => Chk("exists", o.exists = (IF exists' THEN 1 ELSE 0))
+    \* C04: the offsets and the record size the library reports for a foreign file are those of its header
+    /\ ("want_offs" \in DOMAIN ev.a /\ "layout" \in DOMAIN o) =>
+          Chk("foreign.layout", o.layout.offs = ev.a.want_offs /\ o.layout.recsize = ev.a.want_recsize /\ o.layout.hsize = ev.a.want_hsize)
     \* C03: nothing of a clobbered predecessor survives: the file ends where its own content ends
     /\ ("filesize" \in DOMAIN o /\ "disk" \in DOMAIN o) =>
           LET d == o.disk
@@ -120,8 +123,16 @@ TCreate ==
     /\ fillmode' = "NOFILL" /\ fmt' = Tr[l].a.fmtno /\ saved' = NoSave /\ exists' = TRUE /\ hist' = <<>>
     /\ shaRedef' = "none" /\ l' = l + 1
 
+(* C04: a file that some other writer produced: the content the encoder put in is the state of the model *)
+TLoad ==
+    /\ Tr[l].e = "load"
+    /\ LET s == Tr[l].a.st IN
+         /\ dims' = s.dims /\ gatts' = s.gatts /\ vars' = s.vars /\ numrecs' = s.numrecs /\ fmt' = s.fmt
+    /\ mode' = "closed" /\ fresh' = FALSE /\ fillmode' = "NOFILL" /\ saved' = NoSave /\ exists' = TRUE /\ hist' = <<>>
+    /\ shaRedef' = "none" /\ l' = l + 1
+
 TOp ==
-    /\ Tr[l].e \notin {"Reset", "Header", "create"}
+    /\ Tr[l].e \notin {"Reset", "Header", "create", "load"}
     /\ LET ev == Tr[l]  a == ev.a  rc == ev.rc IN
          /\ CASE ev.e = "def_dim"      -> DefDim(a.norm, a.len, rc)
               [] ev.e = "def_var"      -> DefVar(a.norm, a.xtype, a.dims, rc)
@@ -153,7 +164,7 @@ TOp ==
          /\ (ev.e = "abort" /\ saved.on /\ "sha" \in DOMAIN ev.obs) => Chk("abort.bytes", ev.obs.sha = shaRedef)
     /\ l' = l + 1
 
-TNext == l <= Len(Tr) /\ (TReset \/ TCreate \/ TOp)
+TNext == l <= Len(Tr) /\ (TReset \/ TCreate \/ TLoad \/ TOp)
 TInit == l = 1 /\ shaRedef = "none" /\ dims = <<>> /\ gatts = <<>> /\ vars = <<>> /\ numrecs = 0 /\ mode = "closed"
          /\ fresh = FALSE /\ fillmode = "NOFILL" /\ fmt = 1 /\ saved = NoSave /\ exists = FALSE /\ hist = <<>>
 TraceSpec == TInit /\ [][TNext]_tvars
